@@ -74,8 +74,16 @@ func withProject(m *sysl.Module) *sysl.Module {
 func generatorsFor(m *sysl.Module) []generator {
 	var gs []generator
 	add := func(name string, f genFunc) { gs = append(gs, generator{name, f}) }
-	add("pb.textpb", func(m *sysl.Module) ([]byte, error) { var b bytes.Buffer; err := pbutil.FTextPB(&b, m); return b.Bytes(), err })
-	add("pb.json", func(m *sysl.Module) ([]byte, error) { var b bytes.Buffer; err := pbutil.FJSONPB(&b, m); return b.Bytes(), err })
+	add("pb.textpb", func(m *sysl.Module) ([]byte, error) {
+		var b bytes.Buffer
+		err := pbutil.FTextPB(&b, m)
+		return b.Bytes(), err
+	})
+	add("pb.json", func(m *sysl.Module) ([]byte, error) {
+		var b bytes.Buffer
+		err := pbutil.FJSONPB(&b, m)
+		return b.Bytes(), err
+	})
 	add("pb.json.compact", func(m *sysl.Module) ([]byte, error) {
 		var b bytes.Buffer
 		err := pbutil.FJSONPBWithOpt(&b, m, pbutil.OutputOptions{Compact: true})
@@ -177,9 +185,18 @@ func generatorsFor(m *sysl.Module) []generator {
 		b, err := json.Marshal(sortRows(rmRows(s)))
 		return b, err
 	})
-	add("mermaid.ints", func(m *sysl.Module) ([]byte, error) { s, err := mermaidints.GenerateFullIntegrationDiagram(m); return []byte(s), err })
-	add("mermaid.datamodel", func(m *sysl.Module) ([]byte, error) { s, err := mermaiddata.GenerateFullDataDiagram(m); return []byte(s), err })
-	add("mermaid.epa", func(m *sysl.Module) ([]byte, error) { s, err := mermaidepa.GenerateEndpointAnalysisDiagram(m); return []byte(s), err })
+	add("mermaid.ints", func(m *sysl.Module) ([]byte, error) {
+		s, err := mermaidints.GenerateFullIntegrationDiagram(m)
+		return []byte(s), err
+	})
+	add("mermaid.datamodel", func(m *sysl.Module) ([]byte, error) {
+		s, err := mermaiddata.GenerateFullDataDiagram(m)
+		return []byte(s), err
+	})
+	add("mermaid.epa", func(m *sysl.Module) ([]byte, error) {
+		s, err := mermaidepa.GenerateEndpointAnalysisDiagram(m)
+		return []byte(s), err
+	})
 	return gs
 }
 
